@@ -228,6 +228,9 @@ def exec_op(ctx, w, op, rng, check_fresh):
             pre.insert(1, "correct_force_offset")
         else:
             pre.append("compute_tip_position")
+        if rng.random() < 0.5 and "correct_tip_offset" in pre:
+            idnt.preprocessing_options["correct_tip_offset"] = {"method": rng.choice(["fit_constant_line",
+                                                                                      "deviation_from_baseline"])}
         op = dict(op, steps=pre, opts=idnt.preprocessing_options)
     if op["op"] == "pp" and not op.get("via_fit"):
         args = [op["steps"], op["opts"]]
@@ -473,6 +476,9 @@ def scenarios():
          [pp1, setp("E", "min", 0.0), setp("E", "max", 20000.0), setp("E", "brute_step", 6000.0),
           setp("contact_point", "vary", False), setp("baseline", "vary", False), fitbrute,
           setp("E", "brute_step", 250.0), fitbrute]),
+        ("only the constraint expression of a fixed parameter edited in place (same value, same vary flag)",
+         [pp1, setp("baseline", "value", 0.0), setp("baseline", "vary", False), fitobj,
+          setp("baseline", "expr", "0*E"), fitobj]),
         ("an interval bound changes by a few nanometres",
          [pp1, {"op": "fit", "kw": {"range_x": [-8e-7, 4e-7], "range_type": "absolute"}},
           {"op": "fit", "kw": {"range_x": [-8.08e-7, 4e-7]}}, {"op": "fit", "kw": {"range_x": [-8.08e-7, 4.07e-7]}}]),
@@ -532,6 +538,11 @@ def run_histories(ctx, pid, focus, nhist, check_fresh=True, direct_pp_edits=True
     hists.append(None)
     for h in range(nhist):
         w = histlib.World(rng.randrange(3), rng)
+        if w.leak and not getattr(ctx, "_leak_reported", False):
+            ctx._leak_reported = True
+            ctx.violation("fresh-curve-not-fresh", w.leak, {"history": ["(earlier histories of this run edited the "
+                          "public attributes idnt.preprocessing / idnt.preprocessing_options of their own curves in place)",
+                          "new curve"], "observed": w.leak})
         lines.append({"op": "new"})
         expect.append(None)
         hists.append(None)
